@@ -6,3 +6,6 @@ Open Scope N_scope.
 Definition pipeline_safe_closed := pipeline_safe seed0_inv_closed pass_preserves_closed.
 Definition pipeline_deadlock_free_closed := pipeline_deadlock_free seed0_inv_closed pass_preserves_closed.
 Definition pipeline_quiescent_closed := pipeline_quiescent seed0_inv_closed pass_preserves_closed.
+Definition reports_exactly_once_closed := reports_exactly_once seed0_inv_closed pass_preserves_closed.
+Definition reported_never_again_closed := reported_never_again seed0_inv_closed pass_preserves_closed.
+Definition discarded_row_never_in_pipeline_closed := discarded_row_never_in_pipeline seed0_inv_closed pass_preserves_closed.
